@@ -9,6 +9,7 @@ import (
 	"sort"
 	"strings"
 	"sync"
+	"sync/atomic"
 
 	"verif/mc/internal/evidence"
 	"verif/mc/internal/harness"
@@ -614,6 +615,86 @@ func c13Pairs(ev *evidence.Run, tier string) {
 	}
 	close(jobs)
 	wg.Wait()
+	// ordered triples of the constructs whose entries are names, all sizes distinct, each triple on a *fresh*
+	// set of the hand-written checkers: a helper that keeps an index across declarations may need one large
+	// construct to switch the index on, a second one to fill it and a third one to read it
+	var hand []string
+	for _, in := range harness.Infos(nil) {
+		if !in.EmbeddedRuleguard && in.Name != "ruleguard" {
+			hand = append(hand, in.Name)
+		}
+	}
+	baseHand := map[int][]string{}
+	byKind := map[string][]int{}
+	for i, f := range pool {
+		kind := strings.TrimRight(f.ID, "0123456789")
+		if !strings.HasSuffix(kind, "Ident") || !ok[i] {
+			continue
+		}
+		set, err := harness.NewSet(harness.Infos(hand), "")
+		if err != nil {
+			panic(err)
+		}
+		m, good := analyse(set, []progenum.ScaleFunc{f})
+		if !good {
+			continue
+		}
+		baseHand[i] = m[0]
+		byKind[kind] = append(byKind[kind], i)
+	}
+	type triple struct{ a, b, c int }
+	tjobs := make(chan triple, 256)
+	var twg sync.WaitGroup
+	var nt int64
+	for w := 0; w < 16; w++ {
+		twg.Add(1)
+		go func() {
+			defer twg.Done()
+			for t := range tjobs {
+				set, err := harness.NewSet(harness.Infos(hand), "")
+				if err != nil {
+					panic(err)
+				}
+				idx := []int{t.a, t.b, t.c}
+				m, good := analyse(set, []progenum.ScaleFunc{pool[t.a], pool[t.b], pool[t.c]})
+				ev.Eval(1)
+				atomic.AddInt64(&nt, 1)
+				if !good {
+					continue
+				}
+				for pos, i := range idx {
+					if !equalStrings(m[pos], baseHand[i]) {
+						ev.Violate(evidence.Violation{
+							Key:      fmt.Sprintf("%s|unrelated-declaration|%s", firstDiffChecker(m[pos], baseHand[i]), strings.TrimRight(pool[i].ID, "0123456789")),
+							What:     "the diagnostics of a declaration change when unrelated declarations are placed before it",
+							Observed: fmt.Sprintf("%s in the file %s, %s, %s\nonly then: %v\nonly alone: %v", pool[i].ID, pool[t.a].ID, pool[t.b].ID, pool[t.c].ID, diffOnly(m[pos], baseHand[i]), diffOnly(baseHand[i], m[pos])),
+							Replay:   map[string]interface{}{"kind": "program", "path": "vpkg", "files": map[string]string{"f.go": "package vpkg\n\n" + pool[t.a].Src + "\n\n" + pool[t.b].Src + "\n\n" + pool[t.c].Src + "\n"}},
+						})
+					}
+				}
+			}
+		}()
+	}
+	var kinds []string
+	for k := range byKind {
+		kinds = append(kinds, k)
+	}
+	sort.Strings(kinds)
+	for _, k := range kinds {
+		is := byKind[k]
+		for _, a := range is {
+			for _, b := range is {
+				for _, c := range is {
+					if a != b && b != c && a != c {
+						tjobs <- triple{a, b, c}
+					}
+				}
+			}
+		}
+	}
+	close(tjobs)
+	twg.Wait()
+	ev.Set("ordered_triples_of_named_entry_constructs_on_fresh_sets", nt)
 	ev.Set("scale_family_declarations", len(pool))
 	ev.Set("ordered_pairs_analysed", n)
 }
